@@ -16,13 +16,15 @@ CLAIMS = {}
 
 
 def claim(pid, technique, text, note, ref):
-    from tools.manifest_table import ROUND3, ROUND4, ROUND5, ROUND6
+    from tools.manifest_table import ROUND3, ROUND4, ROUND5, ROUND6, ROUND7
     if pid in ROUND3:
         text = text.rstrip() + " Added after the third seed round: " + ROUND3[pid]
     if pid in ROUND5:
         text = text.rstrip() + " Added after the fourth and fifth seed rounds: " + ROUND5[pid]
     if pid in ROUND6:
         text = text.rstrip() + " Added after the sixth seed round (fault at a point / multi-step history): " + ROUND6[pid]
+    if pid in ROUND7:
+        text = text.rstrip() + " Added after the seventh seed round (one interleaving / boundary input): " + ROUND7[pid]
     if pid in ROUND4:
         text = text.rstrip() + " " + ROUND4[pid]
         technique = technique + " + two-party typestate product of the dilation machines (abstract interpretation of Manager / TrafficTimer / Connector sources, EF-reachability)"
